@@ -325,3 +325,89 @@ def rule_N2a(ctx):
                    'len(), indexing, iteration and pp then divide by the item width: ZeroDivisionError', loc=f.loc(stores[0]),
                    extra={'props': ['C14', 'C20']})
     return r
+
+
+def rule_IDX(ctx):
+    """Every Array method that turns an item-index parameter into a bit offset first normalises a negative index by the ITEM count."""
+    m = ctx.m
+    r = RuleResult('IDX', 'negative item indices are normalised with len(self) (items) before they become bit offsets (sibling agreement)')
+    arr = m.classes.get('Array')
+    if arr is None:
+        raise AnalysisError('anchor vanished: class Array')
+    n = 0
+    for name, f in sorted(arr.methods.items()):
+        for p in f.params()[1:]:
+            # the parameter (as an int) is multiplied by a width somewhere in the function
+            mults = [x for x in own_walk(f.node) if isinstance(x, ast.BinOp) and isinstance(x.op, ast.Mult)
+                     and any(isinstance(s, ast.Name) and s.id == p for s in (x.left, x.right))
+                     and any('length' in ast.unparse(s) or 'itemsize' in ast.unparse(s) for s in (x.left, x.right))]
+            # ... and the product is used as a POSITION (slice bound, start=, insert/overwrite position), not as a size
+            sinks = set()
+            for x in own_walk(f.node):
+                if isinstance(x, ast.Subscript) and isinstance(x.slice, ast.Slice):
+                    for b in (x.slice.lower, x.slice.upper):
+                        if b is not None:
+                            sinks |= {id(y) for y in ast.walk(b)}
+                if isinstance(x, ast.Call):
+                    fn = x.func
+                    if isinstance(fn, ast.Attribute) and fn.attr in ('insert', 'overwrite') and len(x.args) >= 2:
+                        sinks |= {id(y) for y in ast.walk(x.args[1])}
+                    if isinstance(fn, ast.Name) and fn.id == 'slice':
+                        for a in x.args:
+                            sinks |= {id(y) for y in ast.walk(a)}
+                    for kw in x.keywords:
+                        if kw.arg == 'start':
+                            sinks |= {id(y) for y in ast.walk(kw.value)}
+                if isinstance(x, ast.Assign) and len(x.targets) == 1 and isinstance(x.targets[0], ast.Name) and x.targets[0].id == 'start':
+                    sinks |= {id(y) for y in ast.walk(x.value)}
+            mults = [x for x in mults if id(x) in sinks]
+            if not mults:
+                continue
+            n += 1
+            first = min(x.lineno for x in mults)
+            norm_ok = False
+            for i in own_walk(f.node):
+                if isinstance(i, ast.If) and i.lineno < first and any(G.test_is_negative(d, p) for d in G.disjuncts(i.test)):
+                    body_txt = ' '.join(ast.unparse(s) for s in i.body)
+                    if 'len(self)' in body_txt and (f'{p} +=' in body_txt or f'{p} =' in body_txt):
+                        norm_ok = True
+            if norm_ok:
+                r.ok(f'Array.{name}({p})', {'instance': f'Array.{name}', 'index': p, 'verdict': 'negative index normalised by len(self)'})
+            else:
+                r.fail(f.key, f'{name}: {p} * width without negative-index normalisation', f"Array.{name} multiplies the item index '{p}' by the item "
+                       'width without first adding len(self) to a negative value (its siblings do): the negative bit offset is then counted from '
+                       'the END of the data buffer, which includes any trailing bits — the item lands in the middle of another one', loc=f.loc(mults[0]))
+    if n < 2:
+        raise AnalysisError(f'only {n} index-to-offset conversions found in Array (floor 2)')
+    return r
+
+
+def rule_TY1(ctx):
+    """math.* is only applied to values that are numbers on every path (element values may be str, bytes or Bits)."""
+    m = ctx.m
+    r = RuleResult('TY1', 'numeric-only library calls are not applied to element values that may be str/bytes/Bits')
+    n = 0
+    for f in m.funcs.values():
+        if f.mod != 'array_':
+            continue
+        anns = {a.arg: ast.unparse(a.annotation) for a in f.node.args.posonlyargs + f.node.args.args + f.node.args.kwonlyargs if a.annotation is not None}
+        for x in own_walk(f.node):
+            if isinstance(x, ast.Call) and ast.unparse(x.func) in ('math.isnan', 'math.isinf', 'math.isfinite', 'math.floor', 'math.ceil') and x.args \
+                    and isinstance(x.args[0], ast.Name):
+                p = x.args[0].id
+                ann = anns.get(p)
+                if ann is None:
+                    continue
+                n += 1
+                broad = 'ElementType' in ann or any(t in ann for t in ('str', 'bytes', 'Bits', 'Any'))
+                guarded = any(isinstance(i, (ast.If, ast.IfExp, ast.BoolOp)) and f'isinstance({p}, ' in ast.unparse(i) and any(x is y for y in ast.walk(i))
+                              for i in own_walk(f.node))
+                if broad and not guarded:
+                    r.fail(f.key, x, f"'{p}' is annotated {ann}: for Arrays of hex/bin/oct/bytes/bits items the value is not a number and {ast.unparse(x.func)} raises "
+                           'TypeError, so the operation fails for those dtypes instead of behaving like the list of items', loc=f.loc(x),
+                           extra={'props': ['C14']})
+                else:
+                    r.ok(x)
+    if n == 0:
+        r.ok('no numeric-only call on element values', trivial=True)
+    return r
